@@ -70,22 +70,10 @@ inductive Reason where
   | internal
   deriving Repr, DecidableEq
 
-/-- the places where the code as it is lets a non-KMIP exception escape for a reason that the request
-parameters alone decide -/
+/-- the places where a non-KMIP exception can escape for a reason that the request parameters (and the
+tables) alone decide -/
 inductive Internal where
-  /-- `hkdf.HKDF(length > 255 * digest_size)`: ValueError -/
-  | hkdfLength
-  /-- `pbkdf2.PBKDF2HMAC(iterations < 1)`: ValueError / OverflowError -/
-  | pbkdf2Iterations
-  /-- `kbkdf.KBKDFHMAC(fixed=None, label=None, context=None, llen=None)`: ValueError "Please specify an llen" -/
-  | kbkdfNoFixedInput
-  /-- `df.derive(None)`: TypeError -/
-  | keyMaterialMissing
-  /-- `_handle_symmetric_padding(…, None, …)`: `padder.update(None)` outside any try block: TypeError -/
-  | padNoPlainText
-  /-- `public_key.encrypt(None, …)` outside any try block: TypeError -/
-  | rsaNoPlainText
-  /-- `self._asymmetric_padding_methods.get(PKCS1v15)` is None and is called -/
+  /-- `self._asymmetric_padding_methods.get(PKCS1v15)` is None and is called (not on the real tables) -/
   | paddingClassMissing
   deriving Repr, DecidableEq
 
@@ -95,10 +83,9 @@ inductive PErr where
   | encAlgMissing
   | hashMissing | hashUnsupported | hashBothInputs | hashNoInput | saltMissing | iterationsMissing
   | methodUnsupported
+  | derivationDataMissing | keyMaterialMissing | hkdfLengthTooLarge | iterationsNotPositive
   /-- `algorithm(encryption_key)` / key loading refuses the key bytes (here: no key material at all) -/
   | keyInvalid
-  /-- `encryptor.update(None)` inside the try block of `_encrypt_symmetric` -/
-  | plainTextMissing
   -- _process_derive_key
   | lengthMissing | lengthNotMultiple | lengthNotPositive | outputTooShort
   -- mac
@@ -107,6 +94,7 @@ inductive PErr where
   | cmacStreamCipher
   -- sign
   | signNeedsAlgorithms | signHashUnsupported | signNotRsa | signPaddingMissing | signPaddingUnsupported
+  | signHashMismatch | signAlgMismatch
   -- verify_signature
   | verifyHashMismatch | verifyAlgMismatch | verifyAlgUnsupported | verifyPssNeedsHash
   | verifyPaddingUnsupported
@@ -125,7 +113,7 @@ inductive PErr where
   deriving Repr, DecidableEq
 
 def PErr.reason : PErr → Reason
-  | .keyInvalid | .plainTextMissing | .outputTooShort | .cmacStreamCipher | .verifyHashMissing => .cryptographicFailure
+  | .keyInvalid | .outputTooShort | .cmacStreamCipher | .verifyHashMissing => .cryptographicFailure
   | .getWrapMethodNotSupported => .operationNotSupported
   | .getWrapEncoding => .encodingOptionError
   | .primitiveFailed r => r
@@ -184,10 +172,9 @@ def asymDecPlan (T : Tables2) (p : AsymParams) : Except PErr AsymScheme :=
     else .error .asymPaddingUnsupported
   else .error .asymAlgUnsupported
 
-/-- what the engine turns a failure of loading the key / of the RSA operation into (l.609-622: the
-load is mapped, `public_key.encrypt` / `private_key.decrypt` are outside any try block) -/
+/-- what the engine turns a failure of loading the key / of the RSA operation into (both in try blocks) -/
 def asymKeyFailure : Reason := .cryptographicFailure
-def asymOpFailure : Reason := .internal
+def asymOpFailure : Reason := .cryptographicFailure
 
 /-! ### signatures (`sign`, `verify_signature`) -/
 
@@ -213,14 +200,18 @@ structure SigParams where
 def lookupDsa (T : Tables2) (d : Nat) : Option (HashName × Nat) :=
   (T.dsa.lookup d).map (fun r => (r.2.1, r.2.2))
 
-/-- l.1377-1391.  Enumeration members are truthy, so `if x:` is `x is not None`.  A digital signature
-algorithm, when given, REPLACES both the cryptographic and the hashing algorithm of the request (they
-are not compared); an unknown one leaves `(None, None)`. -/
+/-- Enumeration members are truthy, so `if x:` is `x is not None`.  As in `verify_signature`, the
+request's algorithms are COMPARED with those of a known digital signature algorithm; an unknown one leaves
+`(None, None)` (and is therefore refused). -/
 def signSelect (T : Tables2) (p : SigParams) : Except PErr (Option HashName × Option Nat) :=
   match p.dsa with
   | some d =>
     match lookupDsa T d with
-    | some (hn, a) => .ok (some hn, some a)
+    | some (dh, da) =>
+      let given : Option HashName := (p.hash.bind (lookupHash T)).map (·.1)
+      if given.isSome && given != some dh then .error .signHashMismatch
+      else if p.alg.isSome && p.alg != some da then .error .signAlgMismatch
+      else .ok (some dh, some da)
     | none => .ok (none, none)
   | none =>
     if p.alg.isSome && p.hash.isSome then .ok ((p.hash.bind (lookupHash T)).map (·.1), p.alg)
@@ -252,8 +243,8 @@ def signPlan (T : Tables2) (p : SigParams) : Except PErr SigPlan :=
   | .ok (h, a) => signFinish T h a p.padding
 
 def signKeyFailure : Reason := .invalidField
-/-- `key.sign(…)` is outside any try block -/
-def signOpFailure : Reason := .internal
+/-- `key.sign(…)` is in a try block -/
+def signOpFailure : Reason := .cryptographicFailure
 
 /-- l.1486-1516.  The request's algorithms are COMPARED with those of a known digital signature
 algorithm; an unknown one is ignored (the request's own algorithms are used). -/
@@ -435,9 +426,11 @@ structure DerivePlan where
 
 def presence (o : Option Nat) (s : Src) : Src := if o.isSome then s else .absent
 
-/-- l.1147-1245 -/
+/-- `derive_key` -/
 def derivePlan (T : Tables2) (p : DeriveParams) : Except PErr DerivePlan :=
   if p.method == mENCRYPT then
+    if p.ddata.isNone then .error .derivationDataMissing
+    else
     -- `self.encrypt(encryption_algorithm, key_material, derivation_data, cipher_mode, padding_method, iv_nonce)`
     match p.encAlg with
     | none => .error .encAlgMissing
@@ -448,7 +441,6 @@ def derivePlan (T : Tables2) (p : DeriveParams) : Except PErr DerivePlan :=
         | .error e => .error e
         | .ok s =>
           if p.keyMaterial.isNone then .error .keyInvalid
-          else if p.ddata.isNone then .error (.internal .rsaNoPlainText)
           else .ok ⟨.rsaEncrypt, none, 0, none, .keyMaterial, .derivationData, .absent, none, none, some s⟩
       else
         match T.sym.symAlgs.lookup a with
@@ -459,10 +451,7 @@ def derivePlan (T : Tables2) (p : DeriveParams) : Except PErr DerivePlan :=
           else
             match encPlan T.sym ⟨a, p.mode, p.padding, p.iv, false, none⟩ with
             | .error e => .error (.sym e)
-            | .ok pl =>
-              if p.ddata.isNone then
-                (if pl.padding.isSome then .error (.internal .padNoPlainText) else .error .plainTextMissing)
-              else .ok ⟨.symEncrypt, none, 0, none, .keyMaterial, .derivationData, .absent, none, some pl, none⟩
+            | .ok pl => .ok ⟨.symEncrypt, none, 0, none, .keyMaterial, .derivationData, .absent, none, some pl, none⟩
   else
     match p.hash with
     | none => .error .hashMissing
@@ -472,8 +461,8 @@ def derivePlan (T : Tables2) (p : DeriveParams) : Except PErr DerivePlan :=
       | some (hn, dg) =>
         if p.method == mHMAC then
           -- hkdf.HKDF(algorithm, length, salt, info = derivation_data).derive(key_material)
-          if p.length > 255 * dg then .error (.internal .hkdfLength)
-          else if p.keyMaterial.isNone then .error (.internal .keyMaterialMissing)
+          if p.keyMaterial.isNone then .error .keyMaterialMissing
+          else if p.length > 255 * dg then .error .hkdfLengthTooLarge
           else .ok ⟨.hkdf, some hn, dg, some p.length, .keyMaterial, presence p.ddata .derivationData,
                     presence p.salt .salt, none, none, none⟩
         else if p.method == mHASH then
@@ -490,14 +479,14 @@ def derivePlan (T : Tables2) (p : DeriveParams) : Except PErr DerivePlan :=
             | none => .error .iterationsMissing
             | some i =>
               -- pbkdf2.PBKDF2HMAC(algorithm, length, salt, iterations).derive(key_material)
-              if i < 1 then .error (.internal .pbkdf2Iterations)
-              else if p.keyMaterial.isNone then .error (.internal .keyMaterialMissing)
+              if i < 1 then .error .iterationsNotPositive
+              else if p.keyMaterial.isNone then .error .keyMaterialMissing
               else .ok ⟨.pbkdf2, some hn, dg, some p.length, .keyMaterial, .absent, .salt, some i.toNat, none, none⟩
         else if p.method == mNIST800_108_C then
           -- kbkdf.KBKDFHMAC(algorithm, CounterMode, length, rlen=4, llen=None, BeforeFixed, label=None,
           --                 context=None, fixed=derivation_data).derive(key_material)
-          if p.ddata.isNone then .error (.internal .kbkdfNoFixedInput)
-          else if p.keyMaterial.isNone then .error (.internal .keyMaterialMissing)
+          if p.ddata.isNone then .error .derivationDataMissing
+          else if p.keyMaterial.isNone then .error .keyMaterialMissing
           else .ok ⟨.kbkdf, some hn, dg, some p.length, .keyMaterial, .derivationData, .absent, none, none, none⟩
         else .error .methodUnsupported
 
